@@ -186,71 +186,86 @@ Definition rtsp_do_analyze (fx : fixes) (add : bool) (s : rtsp_st) : res (rtsp_s
 Definition set_audio_pt (s : rtsp_st) (pt : N) : rtsp_st :=
   mk_rtsp (rs_done s) (rs_cache s) (rs_vps s) (rs_sps s) (rs_pps s) (rs_asc s) pt (rs_video_pt s) (rs_apacker s) (rs_vpacker s).
 
+(* the audio-codec sniffing at the top of FeedRtmpMsg *)
+Definition rtsp_sniff_audio (s : rtsp_st) (m : mmsg) : res rtsp_st :=
+  if (mm_type m =? t_audio) && (rs_audio_pt s =? pt_unknown) then
+    let* c := audio_codec_id m in
+    Ok (if c =? 8 then set_audio_pt s pt_g711u else if c =? 7 then set_audio_pt s pt_g711a
+        else if c =? 13 then set_audio_pt s pt_opus else s)
+  else Ok s.
+
+(* a video sequence header during the analysis: r.sps, r.pps (, r.vps) = record parser result *)
+Definition rtsp_store_headers (fx : fixes) (rf : rec_fns) (s0 : rtsp_st) (m : mmsg) : res rtsp_st :=
+  let p := mm_pay m in
+  let* ash2 := is_avc_key_seq_header fx m in
+  if ash2 then
+    match rf_avc_parse rf p with
+    | Panic site => Panic site
+    | Err _ => Ok (mk_rtsp (rs_done s0) (rs_cache s0) (rs_vps s0) None None (rs_asc s0) (rs_audio_pt s0) (rs_video_pt s0) (rs_apacker s0) (rs_vpacker s0))
+    | Ok (sps, pps) => Ok (mk_rtsp (rs_done s0) (rs_cache s0) (rs_vps s0) (nz sps) (nz pps) (rs_asc s0) (rs_audio_pt s0) (rs_video_pt s0) (rs_apacker s0) (rs_vpacker s0))
+    end
+  else
+    let* hsh := is_hevc_key_seq_header fx m in
+    if hsh then
+      let* enh := is_enhanced m in
+      match (if enh then rf_hevc_parse_enh rf p else rf_hevc_parse rf p) with
+      | Panic site => Panic site
+      | Err _ => Ok (mk_rtsp (rs_done s0) (rs_cache s0) None None None (rs_asc s0) (rs_audio_pt s0) (rs_video_pt s0) (rs_apacker s0) (rs_vpacker s0))
+      | Ok (vps, sps, pps) =>
+        (* the enhanced parser returns sub-slices of the payload (non-nil even when empty);
+           the classic one copies with append(nil, x...), which stays nil for an empty x *)
+        let w := fun x => if enh then Some x else nz x in
+        Ok (mk_rtsp (rs_done s0) (rs_cache s0) (w vps) (w sps) (w pps) (rs_asc s0) (rs_audio_pt s0) (rs_video_pt s0) (rs_apacker s0) (rs_vpacker s0))
+      end
+    else Ok s0.
+
+Definition rtsp_set_asc (s0 : rtsp_st) (asc : bytes) : rtsp_st :=
+  mk_rtsp (rs_done s0) (rs_cache s0) (rs_vps s0) (rs_sps s0) (rs_pps s0) (Some asc) (rs_audio_pt s0) (rs_video_pt s0) (rs_apacker s0) (rs_vpacker s0).
+Definition rtsp_push_cache (s0 : rtsp_st) (m : mmsg) : rtsp_st :=
+  mk_rtsp (rs_done s0) (rs_cache s0 ++ [m]) (rs_vps s0) (rs_sps s0) (rs_pps s0) (rs_asc s0) (rs_audio_pt s0) (rs_video_pt s0) (rs_apacker s0) (rs_vpacker s0).
+
+(* the metadata branch: audiocodecid *)
+Definition rtsp_meta (acfg : amf_cfg) (s : rtsp_st) (p : bytes) : res rtsp_st :=
+  match fst (parse_metadata acfg p) with
+  | Panic site => Panic site
+  | Err _ => Ok s
+  | Ok meta =>
+    match pairs_find k_audiocodecid meta with
+    | Some (ANum bits) =>
+      let c := f64_to_u8 bits in
+      Ok (if c =? 8 then set_audio_pt s pt_g711u else if c =? 7 then set_audio_pt s pt_g711a
+          else if c =? 13 then set_audio_pt s pt_opus else s)
+    | _ => Ok s
+    end
+  end.
+
+Definition rtsp_gate_short (m : mmsg) : bool :=
+  if mm_type m =? t_audio then Nat.leb (length (mm_pay m)) 2
+  else if mm_type m =? t_video then Nat.leb (length (mm_pay m)) 5 else false.
+
 (* FeedRtmpMsg *)
 Definition rtsp_feed (fx : fixes) (rf : rec_fns) (acfg : amf_cfg) (add : bool) (s : rtsp_st) (m : mmsg) : res (rtsp_st * list rtsp_ev) :=
   let p := mm_pay m in
-  if mm_type m =? t_meta then
-    match fst (parse_metadata acfg p) with
-    | Panic site => Panic site
-    | Err _ => Ok (s, [])
-    | Ok meta =>
-      match pairs_find k_audiocodecid meta with
-      | Some (ANum bits) =>
-        let c := f64_to_u8 bits in
-        Ok (if c =? 8 then set_audio_pt s pt_g711u else if c =? 7 then set_audio_pt s pt_g711a
-            else if c =? 13 then set_audio_pt s pt_opus else s, [])
-      | _ => Ok (s, [])
-      end
-    end
+  if mm_type m =? t_meta then let* s' := rtsp_meta acfg s p in Ok (s', [])
+  else if rtsp_gate_short m then Ok (s, [])
   else
-    let gate_short := if mm_type m =? t_audio then Nat.leb (length p) 2
-                      else if mm_type m =? t_video then Nat.leb (length p) 5 else false in
-    if gate_short then Ok (s, [])
-    else
-      let* s0 :=
-        (if (mm_type m =? t_audio) && (rs_audio_pt s =? pt_unknown) then
-           let* c := audio_codec_id m in
-           Ok (if c =? 8 then set_audio_pt s pt_g711u else if c =? 7 then set_audio_pt s pt_g711a
-               else if c =? 13 then set_audio_pt s pt_opus else s)
-         else Ok s) in
-      let* ash := is_avc_key_seq_header fx m in
-      let* vsh := (if ash then Ok true else is_hevc_key_seq_header fx m) in
-      if negb (rs_done s0) then
-        if vsh then
-          let* ash2 := is_avc_key_seq_header fx m in
-          let* s1 :=
-            (if ash2 then
-               match rf_avc_parse rf p with
-               | Panic site => Panic site
-               | Err _ => Ok (mk_rtsp (rs_done s0) (rs_cache s0) (rs_vps s0) None None (rs_asc s0) (rs_audio_pt s0) (rs_video_pt s0) (rs_apacker s0) (rs_vpacker s0))
-               | Ok (sps, pps) => Ok (mk_rtsp (rs_done s0) (rs_cache s0) (rs_vps s0) (nz sps) (nz pps) (rs_asc s0) (rs_audio_pt s0) (rs_video_pt s0) (rs_apacker s0) (rs_vpacker s0))
-               end
-             else
-               let* hsh := is_hevc_key_seq_header fx m in
-               if hsh then
-                 let* enh := is_enhanced m in
-                 match (if enh then rf_hevc_parse_enh rf p else rf_hevc_parse rf p) with
-                 | Panic site => Panic site
-                 | Err _ => Ok (mk_rtsp (rs_done s0) (rs_cache s0) None None None (rs_asc s0) (rs_audio_pt s0) (rs_video_pt s0) (rs_apacker s0) (rs_vpacker s0))
-                 | Ok (vps, sps, pps) =>
-                   (* the enhanced parser returns sub-slices of the payload (non-nil even when empty);
-                      the classic one copies with append(nil, x...), which stays nil for an empty x *)
-                   let w := fun x => if enh then Some x else nz x in
-                   Ok (mk_rtsp (rs_done s0) (rs_cache s0) (w vps) (w sps) (w pps) (rs_asc s0) (rs_audio_pt s0) (rs_video_pt s0) (rs_apacker s0) (rs_vpacker s0))
-                 end
-               else Ok s0) in
-          rtsp_do_analyze fx add s1
-        else
-          let* aash := is_aac_seq_header fx m in
-          if aash then
-            let* asc := from s_rtsp_remux p 2 in
-            rtsp_do_analyze fx add (mk_rtsp (rs_done s0) (rs_cache s0) (rs_vps s0) (rs_sps s0) (rs_pps s0) (Some asc) (rs_audio_pt s0) (rs_video_pt s0) (rs_apacker s0) (rs_vpacker s0))
-          else
-            rtsp_do_analyze fx add (mk_rtsp (rs_done s0) (rs_cache s0 ++ [m]) (rs_vps s0) (rs_sps s0) (rs_pps s0) (rs_asc s0) (rs_audio_pt s0) (rs_video_pt s0) (rs_apacker s0) (rs_vpacker s0))
+    let* s0 := rtsp_sniff_audio s m in
+    let* ash := is_avc_key_seq_header fx m in
+    let* vsh := (if ash then Ok true else is_hevc_key_seq_header fx m) in
+    if negb (rs_done s0) then
+      if vsh then
+        let* s1 := rtsp_store_headers fx rf s0 m in
+        rtsp_do_analyze fx add s1
       else
-        if vsh then Ok (s0, [])
+        let* aash := is_aac_seq_header fx m in
+        if aash then
+          let* asc := from s_rtsp_remux p 2 in
+          rtsp_do_analyze fx add (rtsp_set_asc s0 asc)
+        else rtsp_do_analyze fx add (rtsp_push_cache s0 m)
+    else
+      if vsh then Ok (s0, [])
+      else
+        let* aash := is_aac_seq_header fx m in
+        if aash then Ok (s0, [])
         else
-          let* aash := is_aac_seq_header fx m in
-          if aash then Ok (s0, [])
-          else
-            let* (s1, n) := rtsp_remux fx add s0 m in Ok (s1, [RevRtp n]).
+          let* (s1, n) := rtsp_remux fx add s0 m in Ok (s1, [RevRtp n]).
